@@ -168,3 +168,56 @@ func VH_C14_Templates() {
 		vreach("template-inserted")
 	}
 }
+
+
+// velement: one script element from a small set rich in boundary forms: zero-length and one-byte
+// pushes in all four encodings, truncated push headers, a few opcodes.
+func velement(tag string) []byte {
+	switch vnondetLen(tag+"-form", 0, 13) {
+	case 0:
+		return []byte{OpFALSE}
+	case 1:
+		return append([]byte{1}, []byte{0xab}...)
+	case 2:
+		return []byte{OpPUSHDATA1, 0}
+	case 3:
+		return append([]byte{OpPUSHDATA1, 1}, []byte{0xab}...)
+	case 4:
+		return []byte{OpPUSHDATA2, 0, 0}
+	case 5:
+		return append([]byte{OpPUSHDATA2, 1, 0}, []byte{0xab}...)
+	case 6:
+		return []byte{OpPUSHDATA4, 0, 0, 0, 0}
+	case 7:
+		return append([]byte{OpPUSHDATA4, 1, 0, 0, 0}, []byte{0xab}...)
+	case 8:
+		return []byte{OpPUSHDATA1} // truncated header
+	case 9:
+		return []byte{OpPUSHDATA2, 1} // truncated header
+	case 10:
+		return []byte{OpPUSHDATA4, 1, 0, 0} // truncated header
+	case 11:
+		return []byte{2, 0xff} // truncated direct push
+	case 12:
+		return []byte{OpRETURN}
+	}
+	return []byte{OpCHECKSIG}
+}
+
+// C14-D: the rendering queries (assembly, address extraction) are total: any first byte, then
+// up to E elements from the boundary set above.
+func VH_C14_Render() {
+	var b []byte
+	e := vparam("E", 2)
+	if vnondetBool("any-first-byte") {
+		b = append(b, vnondetU8("first"))
+		e-- // one element fewer behind an arbitrary first byte (which may swallow what follows as push data)
+	}
+	for i, n := 0, vnondetLen("elems", 0, e); i < n; i++ {
+		b = append(b, velement("e")...)
+	}
+	s := Script(b)
+	_, _ = s.ToASM()
+	_, _ = s.Addresses()
+	vreach("render-done")
+}
